@@ -141,7 +141,9 @@ Qed.
 (* bounds *)
 Definition bd_inv (c : cfg) (x : st) : Prop :=
   forall d, In d (devs c) ->
-    0 <= f x fC d <= cap c d /\ (blfc (f x fS d) = true -> f x fDEC d = 0 -> 1 <= f x fC d).
+    0 <= f x fC d <= cap c d + 1
+    /\ (blfc (f x fS d) = true -> f x fDEC d = 0 -> 1 <= f x fC d)
+    /\ (f x fC d = cap c d + 1 -> blfc (f x fS d) = true /\ f x fDEC d = 0).
 
 Lemma upd2_other_field g a d v a' e : (a' =? a) = false -> upd2 g a d v a' e = g a' e.
 Proof. intros H. unfold upd2. rewrite H. reflexivity. Qed.
@@ -166,33 +168,35 @@ Ltac expose :=
   unfold addf, setf, setz, addz, setinc, setpfq, upd2, fC, fS, fDEC, fU, fCF, fM, fA, fTG, fPH in *;
   cbn [f z inc pfq Z.eqb Pos.eqb andb] in *.
 
-Ltac fin B :=
-  let B1 := fresh "B1" in let B2 := fresh "B2" in
-  destruct B as [B1 B2];
-  first [ split; assumption
-        | split; [lia | intros Hb Hd;
-                        first [ discriminate | congruence | (specialize (B2 Hb Hd); lia) | lia ]] ].
+Ltac bcase x d :=
+  destruct (blfc (f x 2 d)) eqn:Eb; destruct (f x 7 d =? 0) eqn:Ez; cbn [andb] in *;
+  [apply Z.eqb_eq in Ez | apply Z.eqb_neq in Ez | apply Z.eqb_eq in Ez | apply Z.eqb_neq in Ez].
+
+Ltac bsolve := intuition (try lia; try congruence; try discriminate).
 
 Lemma step_bd_count c x d n y : bd_inv c x -> step c x (LCount d n) = Some y -> bd_inv c y.
 Proof.
   intros B H. cbn [step] in H; unfold guard in H.
-  split_ifs H; inversion H; subst y; clear H; boolfacts; intros e He; specialize (B e He).
+  split_ifs H; inversion H; subst y; clear H; boolfacts; intros e He; specialize (B e He);
+    destruct B as [B1 [B2 B3]].
   all: expose.
-  all: destruct (e =? d) eqn:Ed; [apply Z.eqb_eq in Ed; subst e|].
-  all: fin B.
+  all: destruct (e =? d) eqn:Ed; [apply Z.eqb_eq in Ed; subst e|];
+    try (split; [exact B1 | split; [exact B2 | exact B3]]).
+  all: bcase x d; bsolve.
 Qed.
 
 Lemma step_bd_state c x d s y : bd_inv c x -> step c x (LState d s) = Some y -> bd_inv c y.
 Proof.
   intros B H. cbn [step] in H; unfold guard in H.
-  split_ifs H; inversion H; subst y; clear H; boolfacts; intros e He; specialize (B e He).
+  split_ifs H; inversion H; subst y; clear H; boolfacts; intros e He; specialize (B e He);
+    destruct B as [B1 [B2 B3]].
   all: expose.
-  all: destruct (e =? d) eqn:Ed; [apply Z.eqb_eq in Ed; subst e|].
-  all: try solve [fin B].
-  - destruct B as [B1 B2]. split; [lia|]. intros _ Hd. apply B2; [rewrite E2; reflexivity | assumption].
-  - split; [apply B|]. intros Hb. exfalso. unfold blfc in Hb. apply orb_true_iff in Hb as [Hb|Hb]; congruence.
-  - split; [apply B|]. intros Hb. exfalso. unfold blfc in Hb. apply orb_true_iff in Hb as [Hb|Hb]; congruence.
-  - split; [apply B|]. intros Hb. exfalso. unfold blfc in Hb. apply orb_true_iff in Hb as [Hb|Hb]; congruence.
+  all: destruct (e =? d) eqn:Ed; [apply Z.eqb_eq in Ed; subst e|];
+    try (split; [exact B1 | split; [exact B2 | exact B3]]).
+  all: try (assert (Hs : blfc s = false) by (unfold blfc; rewrite ?E0, ?E1, ?E2, ?E3; reflexivity)).
+  all: try (bcase x d; bsolve; try (subst s; reflexivity);
+            try (exfalso; match goal with E : f _ 2 _ = BL, Eb' : blfc (f _ 2 _) = false |- _ =>
+                                    rewrite E in Eb'; discriminate Eb' end)).
 Qed.
 
 Lemma step_bd c x l y : bd_inv c x -> step c x l = Some y -> bd_inv c y.
@@ -270,7 +274,7 @@ Proof.
     apply andb_true_iff in G3 as [G3 G5]. apply andb_true_iff in G3 as [G3 G4].
     apply Z.leb_le in G3, G4. apply negb_true_iff in G5.
     repeat rewrite ?f_setz in G3, G4, G5. norm.
-    split; [lia|]. intros Hb. congruence.
+    split; [lia|]. split; [intros Hb; congruence|]. intros Q. lia.
 Qed.
 
 (* ---------------------------------------------------------------------------------------------- *)
@@ -325,11 +329,13 @@ Qed.
 
 Lemma counts_in_bounds_l c ds pf pre m d :
   NoDup (devs c) -> reach c ds pf pre m -> In d (devs c) ->
-  0 <= f m fC d <= cap c d /\ (f m fDEC d = 0 -> 0 <= balls m d <= cap c d).
+  0 <= f m fC d <= cap c d + 1 /\ (f m fDEC d = 0 -> 0 <= balls m d <= cap c d).
 Proof.
-  intros ND R Hd. destruct (reach_inv _ _ _ _ _ ND R) as [_ B]. destruct (B d Hd) as [B1 B2].
-  split; [assumption|]. intros Hz. unfold balls. destruct (blfc (f m fS d)) eqn:E; [|assumption].
-  specialize (B2 eq_refl Hz). lia.
+  intros ND R Hd. destruct (reach_inv _ _ _ _ _ ND R) as [_ B]. destruct (B d Hd) as [B1 [B2 B3]].
+  split; [assumption|]. intros Hz. unfold balls. destruct (blfc (f m fS d)) eqn:E.
+  - specialize (B2 eq_refl Hz). lia.
+  - split; [lia|]. destruct (Z.eq_dec (f m fC d) (cap c d + 1)) as [Q|Q]; [|lia].
+    destruct (B3 Q) as [Q1 _]. discriminate Q1.
 Qed.
 
 Lemma snapshot_observable_l c x ds pf y d cn av s ic :
@@ -345,16 +351,16 @@ Qed.
 
 Lemma eject_only_if_room_l c x d y :
   step c x (LPulse d) = Some y ->
-  y = x /\ f x fS d = EJECTING /\
+  y = x /\ (f x fS d = EJECTING \/ f x fS d = BL) /\
   (f x fTG d <> PF ->
      isdev c (f x fTG d) = true /\
      Z.of_nat (length (inc x (f x fTG d))) < cap c (f x fTG d) - f x fC (f x fTG d)).
 Proof.
-  cbn [step]. unfold guard. intros H. split_ifs H; inversion H; subst y; clear H.
-  - apply negb_false_iff in E. apply andb_true_iff in E as [_ E]. apply Z.eqb_eq in E, E0.
-    split; [reflexivity|]. split; [assumption|]. intros N. contradiction.
-  - apply negb_false_iff in E. apply andb_true_iff in E as [_ E]. apply Z.eqb_eq in E.
-    apply andb_true_iff in E1 as [E1 E2]. apply Z.ltb_lt in E2.
+  cbn [step]. unfold guard. intros H. split_ifs H; inversion H; subst y; clear H;
+    apply negb_false_iff in E; apply andb_true_iff in E as [_ E]; apply orb_true_iff in E;
+    assert (S : f x fS d = EJECTING \/ f x fS d = BL) by (destruct E as [E|E]; apply Z.eqb_eq in E; auto).
+  - apply Z.eqb_eq in E0. split; [reflexivity|]. split; [assumption|]. intros N. contradiction.
+  - apply andb_true_iff in E1 as [E1 E2]. apply Z.ltb_lt in E2.
     split; [reflexivity|]. split; [assumption|]. intros _. split; assumption.
 Qed.
 
